@@ -302,6 +302,37 @@ func cmdDepth(args []string) {
 		}
 		return "none"
 	}
+	// a barrier hides the stack of what it hides: the constructors that handle an error AND capture a stack name
+	// their own caller, not the place where the hidden error was made
+	for name, mk := range map[string]func(error) error{"HandleAsAssertionFailure": c16HandleHere, "NewAssertionErrorWithWrappedErrf": c16AssertWrappedHere} {
+		evals++
+		e := mk(c16Origin())
+		cur := e
+		for hop := 0; hop <= 2; hop++ {
+			if hop > 0 {
+				cur = transferOnce(cur, nil)
+			}
+			if got := src(cur); !strings.Contains(got, "c16"+map[string]string{"HandleAsAssertionFailure": "HandleHere", "NewAssertionErrorWithWrappedErrf": "AssertWrappedHere"}[name]+" true") {
+				fail("barrier-source-"+name, fmt.Sprintf("GetOneLineSource of %s(err) after %d hop(s) is %q, expected the function that called the constructor (the hidden error's own stack is behind the barrier)", name, hop, got), "")
+				break
+			}
+		}
+	}
+	// an error made in an outer frame and handed DOWN to where a stack is added: both records are kept, the
+	// innermost one is where the error was made
+	for name, mk := range map[string]func() error{"WithStack": c16PassDownStack, "WithStackDepth(1)": c16PassDownDepth, "Wrap(err, \"\")": c16PassDownWrapEmpty} {
+		evals++
+		e := mk()
+		nst := 0
+		for c := e; c != nil; c = errors.UnwrapOnce(c) {
+			if withstack.GetReportableStackTrace(c) != nil {
+				nst++
+			}
+		}
+		if got := src(e); nst != 2 || !strings.Contains(got, "c16PassDown") || strings.Contains(got, "c16Low") {
+			fail("passed-down-"+name, fmt.Sprintf("an error made by errors.New in an outer frame and given to %s two calls further down has %d stack layers (expected 2) and one-line source %q (expected the frame that made it)", name, nst, got), "")
+		}
+	}
 	for _, depth := range []int{0, 3, 9, 15, 16, 17, 24, 40} {
 		id := fmt.Sprintf("innermost-depth%d", depth)
 		evals++
@@ -474,3 +505,35 @@ func c16RelabelAssert(cause error) error { return errors.AssertionFailedf("relab
 
 //go:noinline
 func c16RelabelWrapf(cause error) error { return errors.Wrapf(cause, "relabel %d", 1) }
+
+//go:noinline
+func c16HandleHere(e error) error { return errors.HandleAsAssertionFailure(e) }
+
+//go:noinline
+func c16AssertWrappedHere(e error) error {
+	return errors.NewAssertionErrorWithWrappedErrf(e, "wrapped %d", 1)
+}
+
+//go:noinline
+func c16PassDownStack() error { e := errors.New("made at the top"); return c16Mid(e, 0) }
+
+//go:noinline
+func c16PassDownDepth() error { e := errors.New("made at the top"); return c16Mid(e, 1) }
+
+//go:noinline
+func c16PassDownWrapEmpty() error { e := errors.New("made at the top"); return c16Mid(e, 2) }
+
+//go:noinline
+func c16Mid(e error, how int) error { r := c16Low(e, how); return r }
+
+//go:noinline
+func c16Low(e error, how int) error {
+	switch how {
+	case 0:
+		return errors.WithStack(e)
+	case 1:
+		return errors.WithStackDepth(e, 1)
+	default:
+		return errors.Wrap(e, "")
+	}
+}
